@@ -16,6 +16,8 @@ import (
 	"math"
 	"strconv"
 	"strings"
+	"sync"
+	"sync/atomic"
 	"time"
 
 	"github.com/luthersystems/elps/lisp"
@@ -35,28 +37,65 @@ type sleepCfg struct {
 	D       string `json:"d"`       // duration string handed to parse-duration
 	Max     string `json:"max"`     // "" absent | "dur:<duration string>" | "raw:<ELPS literal>"
 	Ceiling int64  `json:"ceiling"` // lisp.WithMaxSleep(ns); 0 = not configured, negative = explicitly none
-	Ctx     string `json:"ctx"`     // background | cancelable | deadline:<ns> | deadline-nodone:<ns>
+	// Ctx is the evaluation context:
+	//   background                       no context at all (LoadString)
+	//   cancelable | deadline:<ns>       the stdlib's WithCancel / WithTimeout
+	//   custom:<done>:<deadline>:<err>   an embedder-written context.Context, every answer fixed:
+	//                                    done = nil | live | closed, deadline = none | <ns from now, may be negative>,
+	//                                    err = nil | canceled | deadline-exceeded
+	Ctx string `json:"ctx"`
 }
 
-func (c sleepCfg) key() string { return fmt.Sprintf("%s|%s|%d|%s", c.D, c.Max, c.Ceiling, c.Ctx) }
-
-func (c sleepCfg) ctxKind() string {
-	if i := strings.Index(c.Ctx, ":"); i >= 0 {
-		return c.Ctx[:i]
-	}
-	return c.Ctx
+// ctxSpec is the decoded Ctx.
+type ctxSpec struct {
+	kind        string // background | cancelable | deadline | custom
+	done        string // custom: nil | live | closed
+	hasDeadline bool
+	deadline    int64 // ns from the moment the context is built
+	err         string // custom: nil | canceled | deadline-exceeded
 }
 
-func (c sleepCfg) deadlineNS() int64 {
-	if i := strings.Index(c.Ctx, ":"); i >= 0 {
-		n, err := strconv.ParseInt(c.Ctx[i+1:], 10, 64)
+func (c sleepCfg) spec() ctxSpec {
+	p := strings.Split(c.Ctx, ":")
+	num := func(s string) int64 {
+		n, err := strconv.ParseInt(s, 10, 64)
 		if err != nil {
 			panic("harness: c15 sleep ctx " + c.Ctx)
 		}
 		return n
 	}
-	return 0
+	switch {
+	case c.Ctx == "background" || c.Ctx == "cancelable":
+		return ctxSpec{kind: c.Ctx}
+	case p[0] == "deadline" && len(p) == 2:
+		return ctxSpec{kind: "deadline", hasDeadline: true, deadline: num(p[1])}
+	case p[0] == "custom" && len(p) == 4:
+		sp := ctxSpec{kind: "custom", done: p[1], err: p[3]}
+		if p[2] != "none" {
+			sp.hasDeadline, sp.deadline = true, num(p[2])
+		}
+		return sp
+	}
+	panic("harness: c15 sleep ctx " + c.Ctx)
 }
+
+// doneKind names the shape of the context's Done channel (part of the violation identity).
+func (sp ctxSpec) doneKind() string {
+	switch sp.kind {
+	case "background":
+		return "no-context"
+	case "custom":
+		return "custom-done-" + sp.done
+	}
+	return "stdlib-" + sp.kind
+}
+
+// interruptible: the driver can wake a sleep that was (rightly or wrongly) started.
+func (sp ctxSpec) interruptible() bool {
+	return sp.kind == "cancelable" || sp.kind == "deadline" || (sp.kind == "custom" && sp.done == "live")
+}
+
+func (c sleepCfg) key() string { return fmt.Sprintf("%s|%s|%d|%s", c.D, c.Max, c.Ceiling, c.Ctx) }
 
 func (c sleepCfg) shape() string {
 	m := "none"
@@ -70,7 +109,7 @@ func (c sleepCfg) shape() string {
 	if c.Ceiling > 0 {
 		ce = "set"
 	}
-	return "max=" + m + ",ceiling=" + ce + ",ctx=" + c.ctxKind()
+	return "max=" + m + ",ceiling=" + ce + ",ctx=" + c.spec().doneKind()
 }
 
 func exactNS(s string) int64 {
@@ -154,9 +193,16 @@ func sleepModel(c sleepCfg) sleepExpect {
 	if len(reasons) > 0 {
 		e.mustConds[lisp.CondSleepLimitExceeded] = true
 	}
-	if l := c.deadlineNS(); l > 0 && d > 0 {
+	sp := c.spec()
+	if sp.hasDeadline {
+		l := sp.deadline
 		switch {
-		case d >= l: // the remaining time is already < l when the call is made
+		case d <= 0:
+			if l <= 0 { // a sleep of no length against a deadline already past: not decided by the statement
+				zones = append(zones, "non-positive-sleep-past-deadline")
+				e.zoneConds[lisp.CondContextCancelled] = true
+			}
+		case l <= 0 || d >= l: // the remaining time is already < l when the call is made
 			reasons = append(reasons, "beyond-deadline")
 			e.mustConds[lisp.CondContextCancelled] = true
 		case l-d < int64(5*time.Second):
@@ -164,20 +210,74 @@ func sleepModel(c sleepCfg) sleepExpect {
 			e.zoneConds[lisp.CondContextCancelled] = true
 		}
 	}
+	if sp.kind == "custom" && sp.err != "nil" {
+		// the context already reports an error: the evaluation (and any sleep in it) must end at once
+		reasons = append(reasons, "context-already-cancelled")
+		e.mustConds[lisp.CondContextCancelled] = true
+	}
 	e.must = len(reasons) > 0
 	e.why = strings.Join(reasons, "+")
 	e.zone = strings.Join(zones, "+")
 	return e
 }
 
-// noDoneCtx reports a deadline but has no Done channel and never errs: the
-// shape sleepContext's doc comment calls out for embedder-written wrappers.
-type noDoneCtx struct{ dl time.Time }
+// customCtx is an embedder-written context.Context whose three answers are
+// fixed independently: sleepContext's own doc comment points out that the
+// interface permits a Deadline together with a nil Done channel.  A live Done
+// channel is closed (and Err set to Canceled first) by cancel().
+type customCtx struct {
+	done     chan struct{}
+	hasDL    bool
+	dl       time.Time
+	err      atomic.Value // error
+	canceled atomic.Bool
+}
 
-func (c noDoneCtx) Deadline() (time.Time, bool) { return c.dl, true }
-func (c noDoneCtx) Done() <-chan struct{}       { return nil }
-func (c noDoneCtx) Err() error                  { return nil }
-func (c noDoneCtx) Value(any) any               { return nil }
+type errBox struct{ e error }
+
+func newCustomCtx(sp ctxSpec) *customCtx {
+	c := &customCtx{hasDL: sp.hasDeadline}
+	if sp.hasDeadline {
+		c.dl = time.Now().Add(time.Duration(sp.deadline))
+	}
+	switch sp.err {
+	case "nil":
+		c.err.Store(errBox{})
+	case "canceled":
+		c.err.Store(errBox{context.Canceled})
+	case "deadline-exceeded":
+		c.err.Store(errBox{context.DeadlineExceeded})
+	default:
+		panic("harness: c15 custom ctx err " + sp.err)
+	}
+	switch sp.done {
+	case "nil":
+	case "live":
+		c.done = make(chan struct{})
+	case "closed":
+		c.done = make(chan struct{})
+		close(c.done)
+	default:
+		panic("harness: c15 custom ctx done " + sp.done)
+	}
+	return c
+}
+
+func (c *customCtx) Deadline() (time.Time, bool) { return c.dl, c.hasDL }
+func (c *customCtx) Done() <-chan struct{} {
+	if c.done == nil {
+		return nil
+	}
+	return c.done
+}
+func (c *customCtx) Err() error    { return c.err.Load().(errBox).e }
+func (c *customCtx) Value(any) any { return nil }
+func (c *customCtx) cancel() {
+	if c.canceled.CompareAndSwap(false, true) {
+		c.err.Store(errBox{context.Canceled})
+		close(c.done)
+	}
+}
 
 type sleepObs struct {
 	returned    bool
@@ -199,7 +299,7 @@ func (o sleepObs) String() string {
 	case o.cancelled && o.released:
 		return "still blocked at the end of the window; returned " + o.relCond + " after the driver cancelled the context"
 	case o.cancelled:
-		return "still blocked at the end of the window and for 20 s after the driver cancelled the context"
+		return "still blocked at the end of the window and for the whole watchdog after the driver cancelled the context"
 	}
 	return "still blocked at the end of the window (context not cancellable; goroutine abandoned)"
 }
@@ -224,16 +324,18 @@ func execSleep(c sleepCfg, window time.Duration) sleepObs {
 	src := sleepSource(c)
 	var ctx context.Context
 	var cancel context.CancelFunc
-	switch c.ctxKind() {
+	switch sp := c.spec(); sp.kind {
 	case "background":
 	case "cancelable":
 		ctx, cancel = context.WithCancel(context.Background())
 	case "deadline":
-		ctx, cancel = context.WithTimeout(context.Background(), time.Duration(c.deadlineNS()))
-	case "deadline-nodone":
-		ctx = noDoneCtx{time.Now().Add(time.Duration(c.deadlineNS()))}
-	default:
-		panic("harness: c15 sleep ctx " + c.Ctx)
+		ctx, cancel = context.WithTimeout(context.Background(), time.Duration(sp.deadline))
+	case "custom":
+		cc := newCustomCtx(sp)
+		ctx = cc
+		if sp.done == "live" {
+			cancel = cc.cancel
+		}
 	}
 	if cancel != nil {
 		defer cancel()
@@ -288,9 +390,24 @@ func execSleep(c sleepCfg, window time.Duration) sleepObs {
 	return o
 }
 
-func checkSleep(c sleepCfg) (fs []finding, info caseInfo) {
+// established counts, per violation identity, the must-refuse cases that stayed blocked for the full watchdog
+// during the sweep.  It only shortens runs that already violate: once an identity is established, the sweep
+// pre-screens further cases of it with a 2 s window.  Every reported case is still re-confirmed five times with
+// the full watchdog (checkSleep), so the pre-screen decides nothing.
+var established sync.Map // string -> *atomic.Int32
+
+const prescreen = 2 * time.Second
+
+func checkSleep(c sleepCfg) ([]finding, caseInfo) { return checkSleepW(c, false) }
+
+func checkSleepW(c sleepCfg, sweep bool) (fs []finding, info caseInfo) {
 	e := sleepModel(c)
 	window := watchdog
+	if sweep && e.must {
+		if n, ok := established.Load(e.why + ":" + c.spec().doneKind()); ok && n.(*atomic.Int32).Load() > 0 {
+			window = prescreen
+		}
+	}
 	if !e.must {
 		switch e.class {
 		case "short":
@@ -299,7 +416,8 @@ func checkSleep(c sleepCfg) (fs []finding, info caseInfo) {
 			window = longProbe
 		}
 	}
-	if !e.must && e.class == "long" && (c.ctxKind() == "background" || c.ctxKind() == "deadline-nodone") {
+	sp := c.spec()
+	if !e.must && e.class == "long" && !sp.interruptible() {
 		// an allowed long sleep nothing can interrupt: it would simply sleep
 		info.skipped = true
 		info.outcome = "sleep allowed-long under an uninterruptible context: not executed"
@@ -331,11 +449,15 @@ func checkSleep(c sleepCfg) (fs []finding, info caseInfo) {
 	case e.must:
 		switch {
 		case !o.returned:
-			fs = append(fs, finding{"sleep:not-refused:blocks:" + e.why, "refused immediately (" + e.why + "): " + desc, o.String()})
+			if sweep && window == watchdog {
+				n, _ := established.LoadOrStore(e.why+":"+sp.doneKind(), new(atomic.Int32))
+				n.(*atomic.Int32).Add(1)
+			}
+			fs = append(fs, finding{"sleep:not-refused:blocks:" + e.why + ":" + sp.doneKind(), "refused immediately (" + e.why + "): " + desc, o.String()})
 		case !o.isErr:
-			fs = append(fs, finding{"sleep:not-refused:returns-nil:" + e.why, "refused (" + e.why + "): " + desc, o.String()})
+			fs = append(fs, finding{"sleep:not-refused:returns-nil:" + e.why + ":" + sp.doneKind(), "refused (" + e.why + "): " + desc, o.String()})
 		case !e.mustAny && !e.mustConds[o.cond] && !zoneOK():
-			fs = append(fs, finding{"sleep:refusal-wrong-condition:" + e.why, fmt.Sprintf("condition among %v: %s", keys(e.mustConds), desc), o.String()})
+			fs = append(fs, finding{"sleep:refusal-wrong-condition:" + e.why + ":" + sp.doneKind(), fmt.Sprintf("condition among %v: %s", keys(e.mustConds), desc), o.String()})
 		}
 	case e.class == "long":
 		switch {
@@ -365,19 +487,72 @@ func keys(m map[string]bool) []string {
 	return l
 }
 
+// customContexts is the product {Done: nil | live | closed} x {Deadline: none | each value} x {Err: nil |
+// Canceled | DeadlineExceeded}, restricted to the combinations a context can consistently present:
+//
+//	Done closed  <=>  Err non-nil            (the Context contract), except that
+//	Done nil     may go with DeadlineExceeded once the deadline is past (an Err derived from the clock)
+//	DeadlineExceeded only with a deadline already past; Canceled never with a nil Done ("can never be cancelled")
+//
+// The excluded combinations contradict themselves and the statement says nothing about them.
+func customContexts(deadlines []int64) (kept []string, excluded int) {
+	dls := []string{"none"}
+	for _, d := range deadlines {
+		dls = append(dls, strconv.FormatInt(d, 10))
+	}
+	for _, done := range []string{"nil", "live", "closed"} {
+		for i, dl := range dls {
+			past := i > 0 && deadlines[i-1] <= 0
+			for _, err := range []string{"nil", "canceled", "deadline-exceeded"} {
+				ok := false
+				switch {
+				case err == "nil":
+					ok = done != "closed"
+				case err == "canceled":
+					ok = done == "closed"
+				case err == "deadline-exceeded":
+					ok = past && done != "live"
+				}
+				if ok {
+					kept = append(kept, "custom:"+done+":"+dl+":"+err)
+				} else {
+					excluded++
+				}
+			}
+		}
+	}
+	return kept, excluded
+}
+
+func sleepContextCounts(thorough bool) (contexts, excluded int) {
+	seen := map[string]bool{}
+	for _, c := range sleepCases(thorough) {
+		seen[c.Ctx] = true
+	}
+	dl := []int64{-1, 1, 2, 3}
+	if thorough {
+		dl = []int64{-2, -1, 0, 1, 2, 3, 4, 5, 6}
+	}
+	_, excluded = customContexts(dl)
+	return len(seen), excluded
+}
+
 func sleepCases(thorough bool) []sleepCfg {
 	ms, s, m, h := int64(time.Millisecond), int64(time.Second), int64(time.Minute), int64(time.Hour)
 	ds := []string{"0s", "1ms", "20ms", "59m", "1h", "1h0m0.000000001s", "2h", "3h"}
 	maxs := []string{"", "dur:1ms", "dur:30m", "dur:3h", "dur:0s", "dur:-1s", "raw:5"}
 	ceils := []int64{0, 10 * m, 2 * h}
 	ctxs := []string{"background", "cancelable", fmt.Sprintf("deadline:%d", 50*ms), fmt.Sprintf("deadline:%d", 10*s), fmt.Sprintf("deadline:%d", 3*h)}
+	custom, _ := customContexts([]int64{-1 * s, 1 * ms, 10 * s, 3 * h})
 	if thorough {
 		ds = []string{"0s", "-1s", "1ns", "1ms", "20ms", "50ms", "59m", "1h", "1h0m0.000000001s", "2h", "2h0m0.000000001s", "3h", "3h0m0.000000001s", "9223372036854775807ns"}
 		maxs = []string{"", "dur:1ns", "dur:1ms", "dur:30m", "dur:1h", "dur:2h", "dur:3h", "dur:9223372036854775807ns", "dur:0s", "dur:-1s", "raw:5", `raw:"3h"`, "raw:'never", "raw:()"}
 		ceils = []int64{0, -1, 1 * ms, 10 * m, 1 * h, 2 * h}
 		ctxs = []string{"background", "cancelable", fmt.Sprintf("deadline:%d", 50*ms), fmt.Sprintf("deadline:%d", 10*s), fmt.Sprintf("deadline:%d", 30*m),
-			fmt.Sprintf("deadline:%d", 1*h), fmt.Sprintf("deadline:%d", 3*h), fmt.Sprintf("deadline-nodone:%d", 10*s), fmt.Sprintf("deadline-nodone:%d", 3*h)}
+			fmt.Sprintf("deadline:%d", 1*h), fmt.Sprintf("deadline:%d", 3*h)}
+		custom, _ = customContexts([]int64{-1 * h, -1 * s, 0, 1 * ms, 50 * ms, 10 * s, 30 * m, 1 * h, 3 * h})
 	}
+	ctxs = append(ctxs, custom...)
 	var out []sleepCfg
 	for _, d := range ds {
 		for _, mx := range maxs {
